@@ -38,7 +38,7 @@ def run(R, tier, seed, driver_ok):
         output_iter = int(rng.choice([1, 10, max_iter, int(rng.randint(2, max_iter + 1)), int(rng.randint(2, max(3, max_iter // 3)))]))
         output_iter = min(output_iter, max_iter)
         params = dict(basis=basis, n_basis=nb, beta=float(rng.choice([1e-5, 1e-3, 0.05])), gamma=float(rng.choice([5e-3, 0.05, 1.0])),
-                      batch_size=int(rng.choice([1, 5, 10])), max_iter=max_iter, output_iter=output_iter, random_state=sd)
+                      batch_size=int(rng.choice([1, 5, 10, 16])), max_iter=max_iter, output_iter=output_iter, random_state=sd)
         cap = {}
         o_cfbw = _BaseSCML._components_from_basis_weights
         o_cdd = _BaseSCML._compute_dist_diff
@@ -61,6 +61,9 @@ def run(R, tier, seed, driver_ok):
                     est = SCML_Supervised(k_genuine=2, k_impostor=3, **params).fit(X, y)
                 else:
                     T = X[zoo.triplets_from(X, y, rng)]
+                    if rep % 4 == 3 and len(T) > d:
+                        # few triplets (d ≤ n_triplets < batch_size happens): the mini-batch is still drawn with replacement
+                        T = T[rng.choice(len(T), size=int(rng.randint(d, min(len(T), d + 5) + 1)), replace=False)]
                     if len(T) < d:
                         continue
                     est = SCML(**params).fit(T)
